@@ -626,6 +626,10 @@ class Program:
                     if isinstance(recv, int) and fn.attr == "to_bytes":
                         args = [F(a) for a in e.args]
                         return recv.to_bytes(*args)
+            if fname == "slice" and 1 <= len(e.args) <= 3 and not e.keywords:
+                a = [F(x) for x in e.args]
+                if all(x is None or (isinstance(x, int) and not isinstance(x, bool)) for x in a):
+                    return slice(*a)          # a named slice object (hashable constant)
             if fname in ("bytes", "bytearray"):
                 if not e.args:
                     return b""
